@@ -175,10 +175,19 @@ namespace occa {
               smnt->printError("Cannot have [@outer] loop inside an [@inner] loop");
               return false;
             }
+            // Launch dimensions (and the per-kernel dimension arrays) have 3 entries
+            if (outerLoopCount > 3) {
+              smnt->printError("Cannot nest more than 3 [@outer] loops");
+              return false;
+            }
           } else if (smnt->hasAttribute("inner")) {
             ++innerLoopCount;
             if (!outerLoopCount) {
               smnt->printError("Cannot have [@inner] loop outside of an [@outer] loop");
+              return false;
+            }
+            if (innerLoopCount > 3) {
+              smnt->printError("Cannot nest more than 3 [@inner] loops");
               return false;
             }
           }
